@@ -52,14 +52,17 @@ Blame(chain, want, d) ==
 C30WroteMismatch(chain, want, digs) ==
     {"C30.wrote-mismatching-bytes/" \o Blame(chain, want, d) : d \in {x \in digs : x # want}}
 
-\* the command reports success although nothing matching was delivered: some hostile path did not fail
+\* the command reports success although nothing matching was delivered: some hostile path did not fail.  Blamed: the
+\* hop whose bytes were written; if nothing was written, the hop contacted last (the command stopped there) when it is hostile
 C30DidNotFail(chain, want, digs, rc) ==
-    LET quiet   == \E h \in Hops(chain) : h.resp = "nopayload" /\ h.hits # 0
-        wrong   == {x \in digs : x # want}
-        blamed  == {Blame(chain, want, d) : d \in wrong} \ {"other"}
-        reached == {h.path : h \in {x \in Hops(chain) : Bad(x, want) /\ x.hits # 0}}
-    IN  IF rc = 0 /\ want \notin digs /\ ~quiet
-        THEN {"C30.path-did-not-fail/" \o p : p \in (IF blamed # {} THEN blamed ELSE IF wrong = {} THEN reached ELSE {})}
+    LET wrong     == {x \in digs : x # want}
+        blamed    == {Blame(chain, want, d) : d \in wrong} \ {"other"}
+        contacted == {h \in Hops(chain) : h.hits > 0}
+        last      == CHOOSE h \in contacted : \A g \in contacted : g.order <= h.order
+    IN  IF rc = 0 /\ want \notin digs
+        THEN {"C30.path-did-not-fail/" \o p :
+                 p \in (IF blamed # {} THEN blamed
+                        ELSE IF wrong = {} /\ contacted # {} /\ Bad(last, want) THEN {last.path} ELSE {})}
         ELSE {}
 
 \* honest world (every endpoint either delivers the stored payload or nothing): the fetch must produce the file
